@@ -155,6 +155,16 @@ def gen_inputs(ctx):
             lines += rnd.choice(hets)[2]
         out.append(("gen%d" % i, pdbgen.text(lines)))
     # covalently coupled systems with a penalised member whose determinants are removed from the other groups
+    # two titratable groups with one printed label (same-type insertion-coded twins)
+    for _ in range(200):
+        lines, ids = pdbgen.multichain(rnd, nchains=1, twins=0.0)
+        tw = pdbgen.same_type_twins(rnd, lines, types=("LYS", "ASP", "GLU", "ARG", "TYR", "HIS"))
+        if tw is not None:
+            o = observe.run(pdbgen.text(tw), [], want_text=False)
+            labs = [g["label"] for g in o.confs.get("AVR", []) if g["titratable"]] if not o.error else []
+            if any(labs.count(l) > 1 for l in labs):
+                out.append(("same-label-twins", pdbgen.text(tw)))
+                break
     out.append(("nterm-asp", pdbgen.text(pdbgen.nterm_asp_fragment())))
     out.append(("nterm-asp-hbond", pdbgen.text(pdbgen.nterm_asp_hbond_fragment())))
     return out
